@@ -14,6 +14,8 @@ import (
 	"go/token"
 	"go/types"
 	"strings"
+
+	"golang.org/x/tools/go/ssa"
 )
 
 // mapKids rewrites the immediate sub-terms of t with m.
@@ -424,11 +426,22 @@ func (v *sxView) rangeRewrite(l *LoopRec, val *types.Var) *rangeRw {
 		return nil
 	}
 	var ctr, bound Term
+	desc := false
 	switch cond.Op {
 	case token.LSS:
 		ctr, bound = cond.X, cond.Y
 	case token.GTR:
 		ctr, bound = cond.Y, cond.X
+	case token.GEQ, token.LEQ:
+		// the descending visit `for i := len(X)-1; i >= 0; i--`: only for rules that do not care about the order (v.anyOrder)
+		ctr, bound = cond.X, cond.Y
+		if cond.Op == token.LEQ {
+			ctr, bound = cond.Y, cond.X
+		}
+		if k, ok := constInt(bound); !ok || k != 0 || !v.anyOrder {
+			return nil
+		}
+		desc = true
 	default:
 		return nil
 	}
@@ -437,11 +450,26 @@ func (v *sxView) rangeRewrite(l *LoopRec, val *types.Var) *rangeRw {
 		return nil
 	}
 	i := cl.Obj
-	if k, ok := constInt(l.Init[i]); !ok || k != 0 {
-		return nil
-	}
-	if v.c.counterStep(l.Post, i) != 1 {
-		return nil
+	if desc {
+		// i starts at len(X)-1 (or count-1) and steps down by one
+		ini, ok := l.Init[i].(TBin)
+		if !ok || ini.Op != token.SUB {
+			return nil
+		}
+		if k, ok := constInt(ini.Y); !ok || k != 1 {
+			return nil
+		}
+		bound = ini.X
+		if v.c.counterStep(l.Post, i) != -1 {
+			return nil
+		}
+	} else {
+		if k, ok := constInt(l.Init[i]); !ok || k != 0 {
+			return nil
+		}
+		if v.c.counterStep(l.Post, i) != 1 {
+			return nil
+		}
 	}
 	// the post statement assigns nothing but the counter, the body does not assign the counter
 	for _, a := range v.c.assignedInStmt(l.Post) {
@@ -569,4 +597,192 @@ func (c *Ctx) termType(t Term) types.Type {
 		}
 	}
 	return nil
+}
+
+// quietHeap: the function writes nothing that existed before the call (E3: every write effect targets memory allocated inside the call)
+// and neither receives nor calls a function value — so no user code runs during the call. Everything the call can read of its receiver
+// and arguments is then the same at every moment of the call, whatever epoch a load was stamped with.
+func (c *Ctx) quietHeap(fd *ast.FuncDecl, paths []*Path) bool {
+	f := c.FuncObj(fd)
+	if f == nil {
+		return false
+	}
+	sig := f.Type().(*types.Signature)
+	for i := 0; i < sig.Params().Len(); i++ {
+		if _, isFn := sig.Params().At(i).Type().Underlying().(*types.Signature); isFn {
+			return false
+		}
+	}
+	a := c.E3()
+	var fn *ssa.Function
+	for _, g := range a.fns {
+		if g.Object() == f {
+			fn = g
+		}
+	}
+	if fn == nil {
+		return false
+	}
+	for _, e := range a.eff[fn] {
+		if e.Target&oROOTS&^oFRESH != 0 || e.Kind == "store-global" || e.Target&oROOTS == 0 {
+			return false
+		}
+	}
+	dyn := false
+	var scan func(ps []*Path)
+	scan = func(ps []*Path) {
+		for _, p := range ps {
+			for _, st := range p.Steps {
+				if st.Kind == "go" || st.Kind == "defer" {
+					dyn = true
+				}
+				if st.Call != nil && st.Call.Fun == nil {
+					dyn = true
+				}
+				if st.Loop != nil {
+					scan(st.Loop.Iter)
+				}
+			}
+		}
+	}
+	scan(paths)
+	return !dyn
+}
+
+// collapseEpochs stamps every load that is rooted in the receiver or a parameter (not in something made on the path) with epoch 0.
+func (v *sxView) collapseEpochs(paths []*Path) []*Path {
+	params := map[types.Object]bool{}
+	if v.recv != nil {
+		params[v.recv] = true
+	}
+	if v.fd.Type.Params != nil {
+		for _, f := range v.fd.Type.Params.List {
+			for _, nm := range f.Names {
+				if o := v.c.Info.Defs[nm]; o != nil {
+					params[o] = true
+				}
+			}
+		}
+	}
+	var outer func(t Term) bool
+	outer = func(t Term) bool {
+		switch x := t.(type) {
+		case TVar:
+			return params[x.Obj]
+		case TSel:
+			return outer(x.X)
+		case TIndex:
+			return outer(x.X)
+		case TSlice:
+			return outer(x.X)
+		case TDeref:
+			return outer(x.X)
+		case TAssert:
+			return outer(x.X)
+		case TProj:
+			return outer(x.X)
+		case TCall:
+			if x.Fun != nil && x.Recv != nil && x.Fun.Pkg() == v.c.Types {
+				return outer(x.Recv) // ego.Ego(), x.getVal(): an in-package accessor of something outer
+			}
+		}
+		return false
+	}
+	f := func(t Term) Term {
+		switch x := t.(type) {
+		case TSel:
+			if outer(x.X) {
+				x.Epoch = 0
+				return x
+			}
+		case TIndex:
+			if outer(x.X) {
+				x.Epoch = 0
+				return x
+			}
+		case TSlice:
+			if outer(x.X) {
+				x.Epoch = 0
+				return x
+			}
+		case TDeref:
+			if outer(x.X) {
+				x.Epoch = 0
+				return x
+			}
+		case TCall:
+			if x.Fun != nil && x.Recv != nil && x.Fun.Pkg() == v.c.Types && outer(x.Recv) {
+				x.Epoch = 0
+				return x
+			}
+		case TBuiltin:
+			if (x.Name == "len" || x.Name == "cap") && len(x.Args) == 1 && outer(x.Args[0]) {
+				x.Epoch = 0
+				return x
+			}
+		}
+		return t
+	}
+	out := make([]*Path, len(paths))
+	for i, p := range paths {
+		out[i] = mapPath(p, func(t Term) (Term, bool) { return mapBU(t, f), true })
+	}
+	return out
+}
+
+// normalizeMapKeyLoads: inside `for key := range M` (or `for key, value := range M`) a load M[key] of the very map being ranged (same term)
+// is the entry's value; it is rewritten to the range value (introduced when the loop has none).
+func (v *sxView) normalizeMapKeyLoads(paths []*Path) []*Path {
+	vals := map[int]*types.Var{}
+	out := make([]*Path, len(paths))
+	for pi, p := range paths {
+		q := p
+		for k := 0; k < len(q.Steps); k++ {
+			l := q.Steps[k].Loop
+			if q.Steps[k].Kind != "loop" || l == nil || l.Range == nil || l.Key == nil || l.Over == nil {
+				continue
+			}
+			isMap := false
+			if _, ct := v.spineOf(l.Over); ct != nil && !ct.IsList {
+				isMap = true
+			} else if t := v.c.termType(l.Over); t != nil {
+				_, isMap = t.Underlying().(*types.Map)
+			}
+			if !isMap {
+				continue
+			}
+			val := l.Value
+			if val == nil {
+				if vals[l.ID] == nil {
+					var et types.Type = types.Typ[types.Invalid]
+					if _, ct := v.spineOf(l.Over); ct != nil {
+						et = v.c.Inv().Field
+					} else if m, ok := v.c.termType(l.Over).Underlying().(*types.Map); ok {
+						et = m.Elem()
+					}
+					vals[l.ID] = types.NewVar(l.Node.Pos(), v.c.Types, "value·"+l.Key.Name(), et)
+				}
+				val = vals[l.ID]
+			}
+			okey, kobj := key(l.Over), l.Key
+			used := false
+			valVar, _ := val.(*types.Var)
+			f := func(t Term) (Term, bool) {
+				if ix, ok := t.(TIndex); ok && isParamTerm(ix.I, kobj) && key(ix.X) == okey {
+					used = true
+					return TVar{valVar}, true
+				}
+				return nil, false
+			}
+			nq := mapPath(q, f)
+			if used {
+				q = nq
+				if q.Steps[k].Loop.Value == nil {
+					q.Steps[k].Loop.Value = valVar
+				}
+			}
+		}
+		out[pi] = q
+	}
+	return out
 }
